@@ -37,6 +37,19 @@ CHECKS = {
         "Trusted: Lean kernel; pint's registry is the engine (its constants are pinned numerically to the exact SI rationals at "
         "rtol 1e-12 by the correspondence); hand-written model tied to the code by the per-run correspondence only.",
         "5/C20"),
+    "C19": (
+        "Lean 4 proof (list induction, ordered fields; rounding at Q) + per-run model/code correspondence at exact rationals",
+        "Theorems in lean/Dreye/Props/C19.lean prove: the per-domain step is (max-min)/(n-1) (telescoping), the new grid has k+1 "
+        "points, starts exactly at lo, ends exactly at hi and is uniformly spaced, np.around picks an integer within 1/2 of "
+        "overlap/step (ties to even), the interpolant is the fill value outside the knots, the convex combination of the "
+        "neighbouring samples inside an interval, reproduces the samples at every knot of a strictly ascending domain, is "
+        "linear in the array values; equal domains are returned unchanged and empty overlaps rejected. Every run compares "
+        "dreye.equalize_domains (2-4 domains incl. unsorted/nested/disjoint, rank 1-4 arrays, any axis, stack/concatenate) "
+        "and ReceptorEstimator.capture(signal, domain=...) with the exact model.",
+        "Trusted: Lean kernel; scipy.interpolate.interp1d and np.linspace/np.around are modelled exactly and compared, not "
+        "verified; near-ties of overlap/step at a half-integer accept either neighbour (float rounding is not modelled); "
+        "hand-written model tied to the code by the per-run correspondence only.",
+        "5/C19"),
 }
 
 NOT_YET = "check not built yet in this round of work (planned in DESIGN.md section 5); no claim is made"
